@@ -33,7 +33,9 @@ def alphabet(rows, idx=(0, 1, -1)):
             ['pop'], ['popi', 0], ['reverse'], ['clear'], ['slice', 0, 2], ['slice', 1, None], ['slice', None, None], ['filter', 'id'],
             # continue on the parent and keep the slice aside / the other way round: the two grids are independent
             ['fork', None, None], ['fork', 0, 2],
-            ['filter', 'v'], ['lookup', 'x1'], ['getlookup', 'never'], ['setid', 0, 'z9'], ['setid', -1, 'x1']]
+            ['filter', 'v'], ['lookup', 'x1'], ['getlookup', 'never'], ['setid', 0, 'z9'], ['setid', -1, 'x1'],
+            # a filter evaluated on the grid in between (following a reference to a row with a plain-string id; by id; by tag)
+            ['evalfilter', 'ref->v'], ['evalfilter', 'id == @x1 or ref->id'], ['append', 13]]
     return ops
 
 
